@@ -309,7 +309,7 @@ fn arbitrary_text(src: &mut Src) -> String {
 }
 
 pub const MAX_NESTING: usize = 64;
-pub const MAX_CHOICE_NESTING: usize = 10;
+pub const MAX_CHOICE_NESTING: usize = 48;
 
 pub fn case(bytes: &[u8]) -> Case {
     let mut src = Src::new(bytes);
